@@ -132,6 +132,33 @@ def audit(prop_id):
 # --------------------------------------------------------------------------- correspondence
 
 
+def tree_fingerprint():
+    """sha256 over the library sources of /repo's WORKING TREE (src/**/*.rs, Cargo.toml, Cargo.lock)"""
+    h = hashlib.sha256()
+    files = []
+    for base, _, fs in os.walk(os.path.join(REPO, "src")):
+        files += [os.path.join(base, f) for f in fs if f.endswith(".rs")]
+    files += [os.path.join(REPO, "Cargo.toml"), os.path.join(REPO, "Cargo.lock")]
+    for f in sorted(files):
+        try:
+            data = open(f, "rb").read()
+        except OSError:
+            data = b"<missing>"
+        h.update(os.path.relpath(f, REPO).encode() + b"\0" + data + b"\0")
+    return h.hexdigest()
+
+
+def tree_changed():
+    """does /repo's working tree differ from the tree the checks were last validated on (baseline_fingerprint.json,
+    written by tools/fingerprint.py)?  Used ONLY to decide how much to explore: a changed tree gets extra seeded rounds
+    of every random family in the quick tier.  It never decides a verdict."""
+    try:
+        base = json.load(open(os.path.join(ROOT, "baseline_fingerprint.json")))["sha256"]
+    except (OSError, ValueError, KeyError):
+        return False
+    return tree_fingerprint() != base
+
+
 class Case:
     __slots__ = ("name", "engine", "ops", "tags", "expect")
 
